@@ -11,5 +11,6 @@ CONSTANTS Principals = {"A"}
           GenPNames = {}
           FilterOnOwner = TRUE
           FixedF8 = FALSE
+          Person <- IdPerson
 INVARIANTS EndedNotRunningShipped
 CHECK_DEADLOCK FALSE
